@@ -560,6 +560,40 @@ static void handler(vh::Reader& r, vh::Out& o)
 		o.f(Angle(*v, w));
 		o.f(Angle(w, *v));
 	}
+	else if(op == "rotdt")
+	{
+		// "determinant one" with the library's own Determinant(); the angle read off with the library's own Trace()
+		double alpha = r.num();
+		long dim	 = r.integer();
+		Vector ax(r.list());
+		Matrix R = Rotation_Matrix(alpha, (int) dim, ax);
+		o.f(R.Determinant());
+		o.f(R.Trace());
+	}
+	else if(op == "chaindt")
+	{
+		long dim = r.integer(), n = r.integer();
+		if(dim != 2 && dim != 3)
+		{
+			o.w("HARNESSERR bad_dim");
+			return;
+		}
+		Matrix P = Identity_Matrix((unsigned int) dim);
+		for(long k = 0; k < n; k++)
+		{
+			double a = r.num();
+			Vector ax(r.list());
+			P = P * Rotation_Matrix(a, (int) dim, ax);
+		}
+		o.f(P.Determinant());
+		o.f(P.Trace());
+	}
+	else if(op == "matdt")
+	{
+		Matrix M(r.table());
+		o.f(M.Determinant());
+		o.f(M.Trace());
+	}
 	else if(op == "angle")
 	{
 		VecP a = rd_vec(r), b = rd_vec(r);
